@@ -355,6 +355,28 @@ def _w_held_call(self, op):
     return core.call(ren)
 
 
+def _w_grp_edit(self, op):
+    """item-editing methods of a (connected) group"""
+    l = self.gfa.line(op["id"])
+    if l is None or l.record_type not in ("O", "U"):
+        self.st.count("op.skipped")
+        return core.Outcome(True, "skipped")
+    how = op["how"]
+    if l.record_type == "U":
+        if how in ("add", "append", "prepend"):
+            return core.call(l.add_item, op["item"].rstrip("+-") if op["item"][-1:] in "+-" and len(op["item"]) > 1 else op["item"])
+        return core.call(l.rm_item, op["item"].rstrip("+-") if op["item"][-1:] in "+-" and len(op["item"]) > 1 else op["item"])
+    item = op["item"] if op["item"][-1:] in "+-" else op["item"] + "+"
+    if how in ("add", "append"):
+        return core.call(l.append_item, item)
+    if how == "prepend":
+        return core.call(l.prepend_item, item)
+    if how == "rm_first":
+        return core.call(l.rm_first_item)
+    return core.call(l.rm_last_item)
+
+
+World.do_grp_edit = _w_grp_edit
 World.do_hold = _w_hold
 World.do_held_call = _w_held_call
 World.do_header_add = _w_header_add
